@@ -209,6 +209,7 @@ func (a *application) terminate(pid gen.PID, reason error) {
 		a.termLock.Unlock()
 		return
 	}
+	lib.VerifPoint("app.member.gone", pid.ID)
 
 	switch a.mode {
 	case gen.ApplicationModePermanent:
